@@ -17,7 +17,7 @@ LEVEL = "exploration"
 NEEDS = ["cli"]
 RULE = ("spectra with 1-4 axes (lengths 1-6 incl. axes of length 1; positive real / integer values; npy or text input) x ALL 16 subsets of "
         "{marginalize, project, mask-monomorphic, normalize} x random admissible axis sets (-m or -M) and targets (--project-shape or "
-        "-individuals) x output {text precision 0/6/12, npy}; each combined run is compared byte-for-byte with the chain of single-option runs "
+        "-individuals) x output {text precision 0/6/12/18/30, npy}; each combined run is compared byte-for-byte with the chain of single-option runs "
         "through npy pipes. Direct checks: mask zeroes exactly the first and last cell, normalize sums to 1 (1e-12*cells) and preserves ratios "
         "(1e-12), plain view reproduces the input within 0.5*10^-p. Non-trivial: >=2 options active; distinct = digest(input, argv).")
 ASSUMPTIONS = ["npy pipes between chained invocations are lossless (C07/C15 check that separately)"]
@@ -54,7 +54,7 @@ def shard(S, p):
             tot = sum(vals)
             vals = [v / tot for v in vals]        # an input that is already a frequency spectrum
             S.count("normalized_inputs")
-        inp = GS.npy_bytes(shape, vals) if rng.random() < 0.7 else GS.text_spectrum(shape, vals, 17)
+        inp = GS.npy_bytes(shape, vals) if (rng.random() < 0.7 or max(vals) < 1e-6) else GS.text_spectrum(shape, vals, 17)
         d = len(shape)
         for subset in itertools.product([False, True], repeat=4):
             use_m, use_p, use_k, use_n = subset
@@ -84,7 +84,7 @@ def shard(S, p):
             if use_k and use_n and O.prod(cur) <= 2:
                 nargs = []              # masking everything and then normalizing divides 0 by 0: outside the comparison
                 use_n = False
-            fmt = rng.choice(["text0", "text6", "text12", "npy"])
+            fmt = rng.choice(["text0", "text6", "text12", "npy", "text18", "text30"])
             oargs = ["-O", "npy"] if fmt == "npy" else ["--precision", fmt[4:]]
             combined = cli.sfs(["view"] + margs + pargs + kargs + nargs + oargs, stdin=inp)
             stages = [a for a in (margs, pargs, kargs, nargs) if a]
@@ -134,10 +134,11 @@ def shard(S, p):
         s1 = sum(Fraction(float(x)) for x in normed)
         if abs(s1 - 1) > Fraction(len(flat), 10 ** 12) or any(abs(Fraction(float(a)) * tot - Fraction(float(b))) > Fraction(float(b)) / 10 ** 12 for a, b in zip(normed, flat)):
             S.viol("C13:normalize", "[C view -n on shape %r] sum %r, ratios not preserved" % (shape, float(s1)), {"level": "C", "input_b64": E.b64(inp)})
-        for prec in (0, 6, 12):
+        for prec in (0, 6, 12, 18, 25, 60):
             r = cli.sfs(["view", "--precision", str(prec)], stdin=inp)
             ps = E.parse_text_spectrum(r.out) if r.rc == 0 else None
             S.count("plain_view_checks")
-            if ps is None or ps[0] != shape or any(abs(Fraction(t) - Fraction(float(x))) > Fraction(1, 2 * 10 ** prec) for t, x in zip(ps[1], flat)):
+            wrong_decimals = ps is not None and any(len(t.split(".")[1] if "." in t else "") != prec for t in ps[1])
+            if ps is None or ps[0] != shape or wrong_decimals or any(abs(Fraction(t) - Fraction(float(x))) > Fraction(1, 2 * 10 ** prec) for t, x in zip(ps[1], flat)):
                 S.viol("C13:plain-view", "[C view --precision %d on shape %r] does not reproduce the input to the printed precision: %r" % (prec, shape, r.out[:120]),
                        {"level": "C", "input_b64": E.b64(inp)})
